@@ -689,7 +689,7 @@ def plan(tier, seed):
         s["max_frames"] = 10 if tier == "quick" else 16
         s["random"] = 1500 if tier == "quick" else 40000
         s["wtx_shapes"] = 5 if tier == "quick" else 30
-        s["timeout"] = 300 if tier == "quick" else 3600          # wall-clock guard only (INCONCLUSIVE), generous for a loaded machine
+        s["timeout"] = 900 if tier == "quick" else 3600          # wall-clock guards only (INCONCLUSIVE); generous: shared, loaded machine
     return shards
 
 
